@@ -215,37 +215,33 @@ def assigned (inp : TIn) (obs : List Obs) : Option (Option ReqData) :=
     if (cmds obs).contains .pieceCancel then some (match rep with | .req rd _ => some rd | _ => none) else none
   | _ => none
 
-/-- C10 monitor. All `Request` frames written between an assignment and the completion/cancellation of the
-    piece name that piece and are, in order, the tiles `(k·B, min B (len − k·B))` of its length, each exactly once;
-    two are pipelined at the assignment; every accepted block (one that answers an outstanding request) is followed
-    by exactly one further request while tiles remain; the piece is stored and reported exactly at the accepted
-    block that leaves nothing outstanding and nothing unrequested; blocks that are not outstanding (duplicates,
-    foreign indices or offsets, wrong lengths) cause nothing. -/
-def step10c (B : Nat) (st : M10) (inp : TIn) (obs : List Obs) (ended : Option Bool) : Option M10 :=
-  let total := fun (c : Cur) => (leftBlocks B c.plen).length
-  -- 1. an accepted block
-  let (cur1, accepted) : Option Cur × Bool :=
-    match inp, st.cur with
-    | .frame (.piece i b blk) _ _, some c =>
-      if i = c.idx ∧ c.outstanding.contains (b, blk.length) then
-        (some { c with outstanding := c.outstanding.filter (· ≠ (b, blk.length)) }, true)
-      else (some c, false)
-    | _, c => (c, false)
-  let saves := savedObs obs
+def totalOf (B : Nat) (c : Cur) : Nat := (leftBlocks B c.plen).length
+
+/-- 1. an accepted block: one that answers an outstanding request of the current piece. -/
+def cur1Of (st : M10) (inp : TIn) : Option Cur × Bool :=
+  match inp, st.cur with
+  | .frame (.piece i b blk) _ _, some c =>
+    if i = c.idx ∧ c.outstanding.contains (b, blk.length) then
+      (some { c with outstanding := c.outstanding.filter (· ≠ (b, blk.length)) }, true)
+    else (some c, false)
+  | _, c => (c, false)
+
+/-- completion: only at an accepted block that leaves nothing outstanding and nothing unrequested -/
+def completesOf (B : Nat) (cur1 : Option Cur) (accepted : Bool) : Bool :=
+  match cur1 with
+  | some c => accepted && c.outstanding.isEmpty && decide (c.sent = totalOf B c)
+  | none => false
+
+/-- 2. (re)assignment consumed in this event, or the next request of the current piece. -/
+def finish10 (B : Nat) (cur1 : Option Cur) (accepted completes : Bool) (inp : TIn) (obs : List Obs) (ended : Option Bool) :
+    Option M10 :=
   let reqs := requestWrites obs
-  -- completion: only at an accepted block that leaves nothing outstanding and nothing unrequested
-  let completes := match cur1 with
-    | some c => accepted && c.outstanding.isEmpty && decide (c.sent = total c)
-    | none => false
-  if !saves.isEmpty && !completes then none else
-  if completes && saves.isEmpty && ended.isNone then none else   -- (a hash mismatch ends the task instead)
-  -- 2. (re)assignment consumed in this event?
   match assigned inp obs with
   | some (some rd) =>
     -- all requests of this event belong to the new piece: the first two tiles
     let c0 : Cur := { idx := rd.index, plen := rd.length, sent := 0, outstanding := [] }
     (match takeRequests B c0 reqs with
-     | some c => if c.sent = min 2 (total c0) then some { cur := some c, alive := ended.isNone } else none
+     | some c => if c.sent = min 2 (totalOf B c0) then some { cur := some c, alive := ended.isNone } else none
      | none => none)
   | some none => if reqs.isEmpty then some { cur := none, alive := ended.isNone } else none
   | none =>
@@ -255,10 +251,24 @@ def step10c (B : Nat) (st : M10) (inp : TIn) (obs : List Obs) (ended : Option Bo
       (match takeRequests B c reqs with
        | some c' =>
          -- exactly one further request after an accepted block while tiles remain, none otherwise
-         if c'.sent = c.sent + (if accepted && decide (c.sent < total c) then 1 else 0)
+         if c'.sent = c.sent + (if accepted && decide (c.sent < totalOf B c) then 1 else 0)
          then some { cur := some c', alive := ended.isNone } else none
        | none => none)
     | none => if reqs.isEmpty then some { cur := none, alive := ended.isNone } else none
+
+/-- C10 monitor. All `Request` frames written between an assignment and the completion/cancellation of the
+    piece name that piece and are, in order, the tiles `(k·B, min B (len − k·B))` of its length, each exactly once;
+    two are pipelined at the assignment; every accepted block (one that answers an outstanding request) is followed
+    by exactly one further request while tiles remain; the piece is stored and reported exactly at the accepted
+    block that leaves nothing outstanding and nothing unrequested; blocks that are not outstanding (duplicates,
+    foreign indices or offsets, wrong lengths) cause nothing. -/
+def step10c (B : Nat) (st : M10) (inp : TIn) (obs : List Obs) (ended : Option Bool) : Option M10 :=
+  let r := cur1Of st inp
+  let completes := completesOf B r.1 r.2
+  let saves := savedObs obs
+  if !saves.isEmpty && !completes then none else
+  if completes && saves.isEmpty && ended.isNone then none else   -- (a hash mismatch ends the task instead)
+  finish10 B r.1 r.2 completes inp obs ended
 
 def step10 (B : Nat) (st : M10) (x : TEntry) : Option M10 :=
   if !st.alive then (if deadOk x then some st else none) else step10c B st x.1 x.2.1 x.2.2
